@@ -959,8 +959,21 @@ impl VM {
             self.push(Rc::new(P(Empty)), pos)?;
             return Ok(());
         }
+        // Describe the target without its values. It may be the environment
+        // or some other tuple holding secrets that don't belong in a log.
+        let target = match left.as_ref() {
+            C(Tuple(flds, _)) => format!(
+                "Tuple with fields [{}]",
+                flds.iter()
+                    .map(|(name, _)| name.as_ref())
+                    .collect::<Vec<&str>>()
+                    .join(", ")
+            ),
+            C(List(elems, _)) => format!("List of {} items", elems.len()),
+            other => other.type_name().to_string(),
+        };
         Err(Error::new(
-            format!("Invalid selector index: {:?} target: {:?}", right, left).into(),
+            format!("Invalid selector index: {:?} target: {}", right, target).into(),
             pos,
         ))
     }
